@@ -700,6 +700,14 @@ def run_check(prop, tier, seed, replay):
                 for sc in elide_scen.generate():
                     f.write(json.dumps(sc) + "\n")
             script_files.append(("elidescen", pth, 5, 6 if tier == "quick" else 12))
+        # 3e. the small-payload program (zero-sized, 1-byte, odd-sized, over-aligned payloads through
+        # every constructor, raw round trips, releases by a last Weak): run once by every check
+        pth = os.path.join(wd, "smallpayload.ndjson")
+        mk_ = lambda name, a=0, b=0: dict(op=name, a=a, b=b, d=dict(op="none", x=0, y=0))
+        with open(pth, "w") as f:
+            f.write(json.dumps([mk_("New", 1), mk_("Misc", 1), mk_("Downgrade", 1), mk_("Misc", 1), mk_("DropRoot", 1),
+                                mk_("Misc", 1), mk_("WeakDrop", 1)]) + "\n")
+        script_files.append(("smallpayload", pth, 2))
         # 4. committed witnesses of repaired / known defects
         fdir = os.path.join(VERIF, "findings")
         if os.path.isdir(fdir):
